@@ -13,7 +13,7 @@ EXPLANATION = ('Structural necessary conditions of C03: unfinished-dependency co
                'can see whether an existing dependency failed.')
 NOT_DECIDED = ['that collect_recursive_consumers computes the full transitive closure (value-level worklist; unit-tested only)',
                'behaviour over all DAG shapes and restart points']
-RELATED = {'C12': ['R12.2', 'R12.1~^TasksAborted']}
+RELATED = {'C12': ['R12.2', 'R12.1~^TasksAborted'], 'C10': ['R10.9~^TasksAborted', 'R10.7']}
 ASSUMPTIONS = []
 OPTION = 'core::option::Option'
 RESTORE = HQ + 'restore::'
@@ -230,3 +230,24 @@ def run(ctx):
     # same receiver set
     same = vs_._mutref_target(op_local(vs_.term[ins[0]]['args'][0])) in vs_.derived_from(op_local(vs_.term[con[0]]['args'][0]))
     ctx.ob('R03.8', 'validate_submit|same set', same, 'contains() is evaluated on the set being filled', vs_.loc(con[0]))
+
+    # ---- R03.9 every dependency named by the client reaches tako
+    ctx.rule('R03.9', 'build_tasks_graph passes every dependency id of a task on to tako: the chain from JobTaskDescription task_deps to TaskConfiguration.task_deps contains only total adapters (iter / copied / collect into a set / into_iter / map), no filter / filter_map / take / skip (a dependency on a task of an EARLIER submit of an open job is legal and must not be dropped)')
+    btg9 = [prog.bodies[p_] for p_ in prog.with_closures(HQ + 'client::submit::build_tasks_graph')]
+    TC9 = 'tako::gateway::TaskConfiguration'
+    n9 = 0
+    for o_, b_, bi_, s_ in construct_sites(prog, TC9):
+        if b_.path not in {x.path for x in btg9}:
+            continue
+        names = s_['rv'][1][3]
+        if 'task_deps' not in names:
+            continue
+        l_ = op_local(s_['rv'][2][names.index('task_deps')])
+        if l_ is None:
+            continue
+        feeders = {(callee_decl(d_[2]) or callee_of(d_[2]) or '') for x_ in b_.derived_from(l_, through_mutation=False) for d_ in b_.defs().get(x_, ()) if d_[1] == 'call'}
+        partial = sorted(c_.split('::')[-1] for c_ in feeders if c_.endswith(('Iterator::filter', 'Iterator::filter_map', 'Iterator::take', 'Iterator::skip', 'Iterator::take_while', 'Iterator::skip_while', 'Iterator::flat_map', 'Iterator::flatten', 'Iterator::step_by', 'Iterator::map_while')))
+        n9 += 1
+        ctx.ob('R03.9', 'build_tasks_graph|all dependencies passed on', not partial and any(c_.endswith(('Iterator::map', 'Iterator::collect')) for c_ in feeders),
+               f'task_deps of the tako task is the image of the whole dependency list (partial adapters in the chain: {partial})', b_.loc(bi_, s_))
+    ctx.floor('R03.9', n9, 1, 'TaskConfiguration with task_deps built in build_tasks_graph')
